@@ -230,8 +230,8 @@ func (w *c19World) setPrice(assetID uint64, twa uint64, active bool) {
 	w.app.MarketKeeper.SetTwa(w.ctx, markettypes.TimeWeightedAverage{AssetID: assetID, ScriptID: 12, Twa: twa, IsPriceActive: active, PriceValue: []uint64{twa}})
 }
 
-// c19NewWorld: one app, three priced assets, a master pool (pair 1) and a child pool (pair 2).
-func c19NewWorld(t *testing.T, tr *Trace, reserve int64, decimals int64, prices [3]uint64) *c19World {
+// c19NewWorld: one app, four priced assets, pool 1 (the master pool of the gauges) and pools 2, 3, 4 (child pools).
+func c19NewWorld(t *testing.T, tr *Trace, reserve int64, decimals int64, prices [4]uint64) *c19World {
 	w := &c19World{t: t, tr: tr, acctIx: map[string]int{}, denoms: []string{"urew", "urewb", "weth"}}
 	w.app = chain.Setup(t, false)
 	t0 := time.Date(2024, 1, 1, 0, 0, 0, 0, time.UTC)
@@ -239,14 +239,14 @@ func c19NewWorld(t *testing.T, tr *Trace, reserve int64, decimals int64, prices 
 	w.macc = w.app.AccountKeeper.GetModuleAddress(rewardstypes.ModuleName)
 	w.must(w.app.AssetKeeper.AddAppRecords(w.ctx, assettypes.AppData{Name: "appone", ShortName: "appone", MinGovDeposit: sdk.NewInt(0)}))
 	w.appID = 1
-	for i, d := range []string{"uasset1", "uasset2", "uasset3"} {
+	for i, d := range []string{"uasset1", "uasset2", "uasset3", "uasset4"} {
 		w.must(w.app.AssetKeeper.AddAssetRecords(w.ctx, assettypes.Asset{Name: alphaName(i), Denom: d, Decimals: sdk.NewInt(decimals), IsOnChain: true, IsOraclePriceRequired: true}))
 		w.setPrice(uint64(i+1), prices[i], true)
 	}
 	params, err := w.app.LiquidityKeeper.GetGenericParams(w.ctx, w.appID)
 	w.must(err)
 	creator := w.acct(0)
-	for _, pd := range [][2]string{{"uasset1", "uasset2"}, {"uasset1", "uasset3"}} {
+	for _, pd := range [][2]string{{"uasset1", "uasset2"}, {"uasset1", "uasset3"}, {"uasset2", "uasset3"}, {"uasset1", "uasset4"}} {
 		w.fund(creator, params.PairCreationFee)
 		pair, err := w.app.LiquidityKeeper.CreatePair(w.ctx, liqtypes.NewMsgCreatePair(w.appID, creator, pd[0], pd[1]), false)
 		w.must(err)
@@ -376,14 +376,50 @@ func (w *c19World) donate(who sdk.AccAddress, denom string, amt int64) {
 	w.tr.Line("gauge.fund", denom, i64(amt))
 }
 
-// the inputs of the share computation as the real keeper computes them, and the real result
+// the inputs of the share computation — per farmer of the gauge's pool its position there and its positions in every
+// child pool, each as (redeemable amount of the priced asset, that asset's TWA, its decimals), obtained with the keeper's
+// low-level functions (NOT with GetAggregatedChildPoolContributions: summing over child pools is the model's job) — and
+// the real result
 type c19Dist struct {
 	mode    string
-	lp      []string
-	child   []string
+	mpos    []string
+	cpos    []string
+	values  []sdkmath.LegacyDec // value of the master position (harness-internal, for directed searches only)
 	recv    []string
 	outcome string
 	rewards []string
+}
+
+// position of `addr` in pool `poolID` as the valuation sees it; ok=false when the code would skip it
+func (w *c19World) position(c sdk.Context, poolID uint64, addr sdk.AccAddress) (pos string, val sdkmath.LegacyDec, ok bool) {
+	k := w.app.LiquidityKeeper
+	kit, err := k.GetPoolTokenDesrializerKit(c, w.appID, poolID)
+	if err != nil {
+		return "", sdkmath.LegacyDec{}, false
+	}
+	pair := kit.Pair
+	asset, err := k.GetAssetWhoseOraclePriceExists(c, pair.QuoteCoinDenom, pair.BaseCoinDenom)
+	if err != nil {
+		return "", sdkmath.LegacyDec{}, false
+	}
+	af, found := k.GetActiveFarmer(c, w.appID, poolID, addr)
+	if !found {
+		return "", sdkmath.LegacyDec{}, false
+	}
+	x, y, err := k.CalculateXYFromPoolCoin(c, kit, af.FarmedPoolCoin)
+	if err != nil {
+		return "", sdkmath.LegacyDec{}, false
+	}
+	amt := y
+	if pair.QuoteCoinDenom == asset.Denom {
+		amt = x
+	}
+	twa := uint64(0)
+	if t, found := w.app.MarketKeeper.GetTwa(c, asset.Id); found {
+		twa = t.Twa
+	}
+	v, _ := k.CalcAssetPrice(c, asset.Id, amt)
+	return amt.String() + ":" + u(twa) + ":" + asset.Decimals.String(), v.Mul(sdkmath.LegacyNewDec(2)), true
 }
 
 func (w *c19World) shareInputs(c sdk.Context, meta rewardstypes.LiquidtyGaugeMetaData) (d c19Dist, addrs []sdk.AccAddress, ok bool) {
@@ -393,9 +429,7 @@ func (w *c19World) shareInputs(c sdk.Context, meta rewardstypes.LiquidtyGaugeMet
 	if err != nil {
 		return d, nil, false
 	}
-	pair := kit.Pair
-	asset, err := k.GetAssetWhoseOraclePriceExists(c, pair.QuoteCoinDenom, pair.BaseCoinDenom)
-	if err != nil {
+	if _, err := k.GetAssetWhoseOraclePriceExists(c, kit.Pair.QuoteCoinDenom, kit.Pair.BaseCoinDenom); err != nil {
 		return d, nil, false
 	}
 	for _, af := range k.GetAllActiveFarmers(c, w.appID, kit.Pool.Id) {
@@ -403,18 +437,13 @@ func (w *c19World) shareInputs(c sdk.Context, meta rewardstypes.LiquidtyGaugeMet
 		if err != nil {
 			continue
 		}
-		x, y, err := k.CalculateXYFromPoolCoin(c, kit, af.FarmedPoolCoin)
-		if err != nil {
+		pos, val, ok := w.position(c, meta.PoolId, addr)
+		if !ok {
 			continue
 		}
-		amt := y
-		if pair.QuoteCoinDenom == asset.Denom {
-			amt = x
-		}
-		v, _ := k.CalcAssetPrice(c, asset.Id, amt)
-		v = v.Mul(sdkmath.LegacyNewDec(2))
 		addrs = append(addrs, addr)
-		d.lp = append(d.lp, v.BigInt().String())
+		d.mpos = append(d.mpos, pos)
+		d.values = append(d.values, val)
 		ix, known := w.acctIx[addr.String()]
 		if !known {
 			ix = 9999
@@ -438,12 +467,41 @@ func (w *c19World) shareInputs(c sdk.Context, meta rewardstypes.LiquidtyGaugeMet
 		}
 		if len(childIDs) != 0 {
 			d.mode = "1"
-			m := k.GetAggregatedChildPoolContributions(c, w.appID, childIDs, addrs)
-			for _, a := range addrs {
-				if v, found := m[a.String()]; found {
-					d.child = append(d.child, v.BigInt().String())
+			if len(childIDs) >= 2 {
+				w.tr.Count("dist:children>=2")
+			} else {
+				w.tr.Count("dist:children=1")
+			}
+			for i, a := range addrs {
+				var ps []string
+				sum := sdkmath.LegacyZeroDec()
+				last := sdkmath.LegacyZeroDec()
+				for _, id := range childIDs {
+					if pos, val, ok := w.position(c, id, a); ok {
+						ps = append(ps, pos)
+						sum = sum.Add(val)
+						last = val
+					}
+				}
+				if len(ps) == 0 {
+					d.cpos = append(d.cpos, "0")
+					w.tr.Count("farmer:no-child")
 				} else {
-					d.child = append(d.child, "0")
+					d.cpos = append(d.cpos, strings.Join(ps, "+"))
+					if len(ps) >= 2 {
+						w.tr.Count("farmer:child-positions>=2")
+						// the situations in which dropping or overwriting a child pool changes the weight
+						if last.LT(sum) && last.LT(d.values[i]) {
+							w.tr.Count("farmer:last-child-below-min(master,sum)")
+						}
+					} else {
+						w.tr.Count("farmer:child-positions=1")
+					}
+					if d.values[i].LTE(sum) {
+						w.tr.Count("bind:master")
+					} else {
+						w.tr.Count("bind:child-sum")
+					}
 				}
 			}
 		}
@@ -571,9 +629,9 @@ func (w *c19World) block(gap time.Duration) {
 		d := w.computeDist(*meta, sdk.NewCoin(g.DepositAmount.Denom, sdk.NewIntFromUint64(alloc)))
 		child := "-"
 		if d.mode == "1" {
-			child = c19csvS(d.child)
+			child = c19csvS(d.cpos)
 		}
-		tr.Line("gauge.dist", u(g.Id), u(alloc), d.mode, c19csvS(d.lp), child, d.outcome, c19csvS(d.recv), c19csvS(d.rewards))
+		tr.Line("gauge.dist", u(g.Id), u(alloc), d.mode, c19csvS(d.mpos), child, d.outcome, c19csvS(d.recv), c19csvS(d.rewards))
 	}
 	exBefore := w.extSnaps()
 	balBefore := w.balSnap()
@@ -735,7 +793,7 @@ func (w *c19World) poolCoinFor(pool liqtypes.Pool, x int64) sdkmath.Int {
 
 // W1: the literal 10^-12 clause.  Values 599 999 999 998 and 59 400 000 000 002 (total 6·10^13), allocation 4 000 000.
 func c19Witness1e12(t *testing.T, tr *Trace) {
-	w := c19NewWorld(t, tr, 100000000000000, 1000000, [3]uint64{1000000, 1000000, 1000000})
+	w := c19NewWorld(t, tr, 100000000000000, 1000000, [4]uint64{1000000, 1000000, 1000000, 1000000})
 	a := w.acct(1)
 	w.deposit(a, w.pools[0], 1000000000000)
 	// quote amounts 3·10^11 − 1 and 3·10^13 − 3·10^11 + 1; value = 2 · amount · price / decimals
@@ -756,7 +814,7 @@ func c19Witness1e12(t *testing.T, tr *Trace) {
 // TotalTriggers = 0 must be REJECTED by ValidateBasic; if it is accepted again the monitor zero_epochs fires and the
 // model (which refuses it) diverges.
 func c19WitnessZeroEpochs(t *testing.T, tr *Trace) {
-	w := c19NewWorld(t, tr, 1000000000000, 1000000, [3]uint64{1000000, 1000000, 1000000})
+	w := c19NewWorld(t, tr, 1000000000000, 1000000, [4]uint64{1000000, 1000000, 1000000, 1000000})
 	w.must(w.farm(w.acct(0), w.pools[0], sdk.NewInt(1000000000)))
 	w.settle(25 * time.Hour)
 	w.fund(w.acct(2), sdk.NewCoins(sdk.NewCoin("urew", sdk.NewInt(7))))
@@ -770,7 +828,7 @@ func c19WitnessZeroEpochs(t *testing.T, tr *Trace) {
 
 // W3: an external locker programme pays 18 base units more than it has; the shortfall comes out of a gauge's money.
 func c19WitnessExtOverpay(t *testing.T, tr *Trace) {
-	w := c19NewWorld(t, tr, 1000000000000, 1000000, [3]uint64{1000000, 1000000, 1000000})
+	w := c19NewWorld(t, tr, 1000000000000, 1000000, [4]uint64{1000000, 1000000, 1000000, 1000000})
 	w.setupLockers([]int64{1000000000, 1000000000, 1000000000, 1000000000, 1000000000, 1000000000})
 	w.must(w.farm(w.acct(0), w.pools[0], sdk.NewInt(1000000000)))
 	w.fund(w.acct(2), sdk.NewCoins(sdk.NewCoin("weth", sdk.NewInt(1000))))
@@ -787,7 +845,7 @@ func c19WitnessExtOverpay(t *testing.T, tr *Trace) {
 // sum-of-shares guard of BeginRewardDistributions (distribution.go:84) stands between that and an over-payment. The real
 // trigger must refuse the epoch (not counted, nothing paid). The allocation is found by asking the real share computation.
 func c19GuardCase(t *testing.T, tr *Trace) {
-	w := c19NewWorld(t, tr, 1000000000000, 1, [3]uint64{65000000000, 65000000000, 65000000000})
+	w := c19NewWorld(t, tr, 1000000000000, 1, [4]uint64{65000000000, 65000000000, 65000000000, 65000000000})
 	a := w.acct(1)
 	pc := w.deposit(a, w.pools[0], 900000000000)
 	w.must(w.farm(a, w.pools[0], pc.Amount))
@@ -800,9 +858,8 @@ func c19GuardCase(t *testing.T, tr *Trace) {
 	c0, _ := w.ctx.CacheContext()
 	in, _, _ := w.shareInputs(c0, meta)
 	sRaw := new(big.Int)
-	for _, v := range in.lp {
-		x, _ := new(big.Int).SetString(v, 10)
-		sRaw.Add(sRaw, x)
+	for _, v := range in.values {
+		sRaw.Add(sRaw, v.BigInt())
 	}
 	start := new(big.Int).Quo(sRaw, new(big.Int).Mul(big.NewInt(2), new(big.Int).Exp(big.NewInt(10), big.NewInt(36), nil))).Uint64() + 1
 	for alloc := start; alloc < start+50 && found == 0; alloc++ {
@@ -829,6 +886,95 @@ func c19GuardCase(t *testing.T, tr *Trace) {
 	w.block(25 * time.Hour)
 }
 
+// populate: farmers 1..nF with varied master/child configurations — master pool only, child pools only, both with the
+// master side binding, both with the child sum binding, the last child pool smaller / larger than the others
+func (w *c19World) populate(rng *Rng, nF int) {
+	for i := 1; i <= nF; i++ {
+		a := w.acct(i)
+		base := int64(1000000)<<uint(rng.Intn(18)) + int64(rng.Intn(999999))
+		profile := rng.Intn(7)
+		w.tr.Count("profile:" + []string{"master-only", "children-only", "master-binds", "child-sum-binds", "last-child-small", "last-child-large", "random"}[profile])
+		master := int64(0)
+		child := [3]int64{} // pools 2, 3, 4
+		switch profile {
+		case 0:
+			master = base
+		case 1:
+			for j := range child {
+				if rng.Chance(60) {
+					child[j] = base / int64(rng.Range(1, 4))
+				}
+			}
+		case 2: // small master position, large child positions
+			master = base
+			child = [3]int64{base * 2, base * int64(rng.Range(1, 3)), 0}
+		case 3: // large master position, child positions adding up to less
+			master = base * 8
+			child = [3]int64{base, base / 2, base / 3}
+		case 4: // the child pool processed last is the smallest
+			master = base * 4
+			child = [3]int64{base * 3, base * 2, base / int64(rng.Range(2, 50))}
+		case 5:
+			master = base * 4
+			child = [3]int64{base / int64(rng.Range(2, 50)), base / 3, base * 3}
+		default:
+			master = base
+			for j := range child {
+				if rng.Chance(50) {
+					child[j] = int64(1000000) << uint(rng.Intn(18))
+				}
+			}
+		}
+		if master > 0 {
+			pc := w.deposit(a, w.pools[0], master)
+			part := pc.Amount
+			if rng.Chance(30) {
+				part = part.MulRaw(int64(rng.Range(1, 99))).QuoRaw(100).AddRaw(1)
+			}
+			w.farm(a, w.pools[0], part)
+		}
+		for j, amt := range child {
+			if amt >= 1000000 {
+				pc := w.deposit(a, w.pools[1+j], amt)
+				if pc.Amount.IsPositive() {
+					w.farm(a, w.pools[1+j], pc.Amount)
+				}
+			}
+		}
+	}
+}
+
+// child pool sets of a master-pool gauge: none given (= every other pool), one, two, three, in either order
+func c19Children(rng *Rng) []uint64 {
+	return [][]uint64{nil, {2}, {3}, {2, 3}, {3, 2}, {2, 4}, {4, 3}, {2, 3, 4}, {4, 3, 2}, {3, 4}}[rng.Intn(10)]
+}
+
+// M1 (directed, no defect): a master-pool gauge with child pools 2 and 3. A farms 500 in the master pool and 500 in pool 2;
+// B farms 500 in the master pool, 300 in pool 2 and 200 in pool 3 (the pool processed last holds the least); C farms only in
+// child pools and D only in the master pool (both get nothing). Equal weights min(master, Σ children) ⇒ A and B are paid the same.
+func c19MasterChildCase(t *testing.T, tr *Trace) {
+	w := c19NewWorld(t, tr, 1000000000000, 1000000, [4]uint64{1000000, 1000000, 1000000, 1000000})
+	type pos struct {
+		who  int
+		pool int
+		amt  int64
+	}
+	for _, p := range []pos{{1, 0, 500000000}, {1, 1, 500000000}, {2, 0, 500000000}, {2, 1, 300000000}, {2, 2, 200000000},
+		{3, 1, 400000000}, {3, 2, 400000000}, {4, 0, 250000000}} {
+		pc := w.deposit(w.acct(p.who), w.pools[p.pool], p.amt)
+		w.must(w.farm(w.acct(p.who), w.pools[p.pool], pc.Amount))
+	}
+	w.settle(25 * time.Hour)
+	w.fund(w.acct(5), sdk.NewCoins(sdk.NewCoin("urew", sdk.NewInt(3000000000))))
+	w.createGauge(c19GaugeSpec{creator: 5, denom: "urew", deposit: sdk.NewInt(3000000000), total: 3, start: w.ctx.BlockTime(), dur: 24 * time.Hour,
+		pool: 1, master: true, children: []uint64{2, 3}, typeID: 1})
+	w.block(time.Hour)
+	w.block(25 * time.Hour)
+	w.block(25 * time.Hour)
+	w.block(25 * time.Hour)
+	tr.Count("corpus:master-child")
+}
+
 // ---------------------------------------------------------------------------------------------
 // generated lifecycles
 // ---------------------------------------------------------------------------------------------
@@ -836,7 +982,7 @@ func c19GuardCase(t *testing.T, tr *Trace) {
 func c19Lifecycle(t *testing.T, tr *Trace, rng *Rng, seqNo int) {
 	decs := []int64{1, 1000000, 100000000}
 	dec := decs[rng.Intn(len(decs))]
-	var prices [3]uint64
+	var prices [4]uint64
 	for i := range prices {
 		prices[i] = []uint64{1, 37, 1000000, 1234567, 65000000000}[rng.Intn(5)]
 	}
@@ -844,33 +990,15 @@ func c19Lifecycle(t *testing.T, tr *Trace, rng *Rng, seqNo int) {
 	w := c19NewWorld(t, tr, reserve, dec, prices)
 	nF := rng.Range(1, 6)
 	tr.Count("farmers:" + strconv.Itoa(nF))
-	// farmers 1..nF deposit into the master pool and (some) into the child pool, then farm part of their pool coins
-	for i := 1; i <= nF; i++ {
-		a := w.acct(i)
-		amt := int64(1000000) << uint(rng.Intn(20))
-		amt += int64(rng.Intn(1000000))
-		pc := w.deposit(a, w.pools[0], amt)
-		part := pc.Amount
-		if rng.Chance(50) {
-			part = part.MulRaw(int64(rng.Range(1, 99))).QuoRaw(100)
-		}
-		if part.IsPositive() {
-			w.farm(a, w.pools[0], part)
-		}
-		if rng.Chance(60) {
-			amt2 := int64(1000000) << uint(rng.Intn(20))
-			pc2 := w.deposit(a, w.pools[1], amt2)
-			if pc2.Amount.IsPositive() {
-				w.farm(a, w.pools[1], pc2.Amount)
-			}
-		}
-	}
+	w.populate(rng, nF)
 	if rng.Chance(50) { // the pool creator farms too (a dominant farmer)
 		bal := w.app.BankKeeper.GetBalance(w.ctx, w.acct(0), w.pools[0].PoolCoinDenom).Amount
 		w.farm(w.acct(0), w.pools[0], bal.QuoRaw(int64(rng.Range(1, 1000))))
-		if rng.Chance(50) {
-			bal2 := w.app.BankKeeper.GetBalance(w.ctx, w.acct(0), w.pools[1].PoolCoinDenom).Amount
-			w.farm(w.acct(0), w.pools[1], bal2.QuoRaw(int64(rng.Range(1, 1000))))
+		for j := 1; j <= 3; j++ {
+			if rng.Chance(40) {
+				bal2 := w.app.BankKeeper.GetBalance(w.ctx, w.acct(0), w.pools[j].PoolCoinDenom).Amount
+				w.farm(w.acct(0), w.pools[j], bal2.QuoRaw(int64(rng.Range(1, 1000))))
+			}
 		}
 	}
 	if rng.Chance(80) {
@@ -917,9 +1045,14 @@ func c19Lifecycle(t *testing.T, tr *Trace, rng *Rng, seqNo int) {
 			tr.Count("create:huge")
 		}
 		s.start = w.ctx.BlockTime().Add(time.Duration(rng.Intn(4)) * 10 * time.Hour)
-		s.master = rng.Chance(50)
-		if s.master && rng.Chance(50) {
-			s.children = []uint64{2}
+		s.master = rng.Chance(60)
+		if s.master {
+			s.children = c19Children(rng)
+			if len(s.children) >= 2 || s.children == nil {
+				tr.Count("create:master-children>=2")
+			} else {
+				tr.Count("create:master-children=1")
+			}
 		}
 		if !s.master && rng.Chance(15) {
 			s.pool = 2
@@ -1010,33 +1143,20 @@ func c19Shares(t *testing.T, tr *Trace, rng *Rng) {
 	per := scale(150, 600)
 	for wi := 0; wi < worlds; wi++ {
 		dec := []int64{1, 1000000, 1000000000000000000}[rng.Intn(3)]
-		prices := [3]uint64{[]uint64{1, 1000000, 3333333}[rng.Intn(3)], []uint64{1, 1000000, 999999}[rng.Intn(3)], 1000000}
+		prices := [4]uint64{[]uint64{1, 1000000, 3333333}[rng.Intn(3)], []uint64{1, 1000000, 999999}[rng.Intn(3)], []uint64{1000000, 250000}[rng.Intn(2)], []uint64{1000000, 7000000}[rng.Intn(2)]}
 		reserve := []int64{1000000000, 1000000000000, 100000000000000}[rng.Intn(3)]
 		w := c19NewWorld(t, tr, reserve, dec, prices)
 		nF := rng.Range(1, 8)
-		for i := 1; i <= nF; i++ {
-			a := w.acct(i)
-			amt := int64(1000000)<<uint(rng.Intn(22)) + int64(rng.Intn(999999))
-			pc := w.deposit(a, w.pools[0], amt)
-			if pc.Amount.IsPositive() {
-				w.farm(a, w.pools[0], pc.Amount.MulRaw(int64(rng.Range(1, 100))).QuoRaw(100).AddRaw(1))
-			}
-			if rng.Chance(60) {
-				pc2 := w.deposit(a, w.pools[1], int64(1000000)<<uint(rng.Intn(22)))
-				if pc2.Amount.IsPositive() {
-					w.farm(a, w.pools[1], pc2.Amount)
-				}
-			}
-		}
+		w.populate(rng, nF)
 		if rng.Chance(60) {
 			bal := w.app.BankKeeper.GetBalance(w.ctx, w.acct(0), w.pools[0].PoolCoinDenom).Amount
 			w.farm(w.acct(0), w.pools[0], bal.QuoRaw(int64(rng.Range(1, 100))))
 		}
 		w.settle(25 * time.Hour)
 		for j := 0; j < per; j++ {
-			meta := rewardstypes.LiquidtyGaugeMetaData{PoolId: 1, IsMasterPool: rng.Chance(40)}
-			if meta.IsMasterPool && rng.Chance(50) {
-				meta.ChildPoolIds = []uint64{2}
+			meta := rewardstypes.LiquidtyGaugeMetaData{PoolId: 1, IsMasterPool: rng.Chance(70)}
+			if meta.IsMasterPool {
+				meta.ChildPoolIds = c19Children(rng)
 			}
 			var alloc uint64
 			switch rng.Intn(8) {
@@ -1054,9 +1174,9 @@ func c19Shares(t *testing.T, tr *Trace, rng *Rng) {
 			d := w.computeDist(meta, sdk.NewCoin("urew", sdk.NewIntFromUint64(alloc)))
 			child := "-"
 			if d.mode == "1" {
-				child = c19csvS(d.child)
+				child = c19csvS(d.cpos)
 			}
-			tr.Line("gauge.shares.single", d.mode, u(alloc), c19csvS(d.lp), child, d.outcome, c19csvS(d.rewards))
+			tr.Line("gauge.shares.single", d.mode, u(alloc), c19csvS(d.mpos), child, d.outcome, c19csvS(d.rewards))
 		}
 	}
 }
@@ -1070,6 +1190,7 @@ func TestC19(t *testing.T) {
 	c19WitnessZeroEpochs(t, tr)
 	c19WitnessExtOverpay(t, tr)
 	c19GuardCase(t, tr)
+	c19MasterChildCase(t, tr)
 	c19Split(tr, rng)
 	c19Float(tr, rng)
 	c19Shares(t, tr, rng)
